@@ -316,5 +316,495 @@ theorem covers_interR {wk : K} {chans : List (List (Found K))} (hne : chans ≠ 
         obtain ⟨ch0, hch0⟩ := List.exists_mem_of_ne_nil chans hne
         exact ⟨⟨ch0, hch0, hall ch0 hch0⟩, hall⟩
 
+/-! ### `expandExclusion`: the case table -/
+
+/-- keys of a Go map are unique -/
+def Uniq (m : List (Found K)) : Prop := (m.map (·.user)).Nodup
+
+omit [DecidableEq K] in
+theorem Uniq.eq {m : List (Found K)} (h : Uniq m) {f g : Found K} (hf : f ∈ m) (hg : g ∈ m)
+    (hu : f.user = g.user) : f = g := by
+  unfold Uniq at h
+  induction m with
+  | nil => cases hf
+  | cons a m ih =>
+    simp only [List.map_cons, List.nodup_cons] at h
+    rcases List.mem_cons.mp hf with rfl | hf' <;> rcases List.mem_cons.mp hg with rfl | hg'
+    · rfl
+    · exact absurd (List.mem_map.mpr ⟨g, hg', hu.symm⟩) h.1
+    · exact absurd (List.mem_map.mpr ⟨f, hf', hu⟩) h.1
+    · exact ih h.2 hf' hg'
+
+theorem find_some_iff {m : List (Found K)} (h : Uniq m) {k : K} {s : Found K} :
+    m.find? (fun x => decide (x.user = k)) = some s ↔ s ∈ m ∧ s.user = k := by
+  constructor
+  · intro hf
+    exact ⟨List.mem_of_find?_eq_some hf, by simpa using List.find?_some hf⟩
+  · rintro ⟨hs, hk⟩
+    cases hfind : m.find? (fun x => decide (x.user = k)) with
+    | none =>
+      have := List.find?_eq_none.mp hfind s hs
+      simp [hk] at this
+    | some s' =>
+      have h1 := List.mem_of_find?_eq_some hfind
+      have h2 : s'.user = k := by simpa using List.find?_some hfind
+      rw [h.eq h1 hs (h2.trans hk.symm)]
+
+theorem find_none_iff {m : List (Found K)} {k : K} :
+    m.find? (fun x => decide (x.user = k)) = none ↔ ∀ s ∈ m, s.user ≠ k := by
+  rw [List.find?_eq_none]
+  constructor
+  · intro h s hs; simpa using h s hs
+  · intro h s hs; simpa using h s hs
+
+theorem any_user_iff {m : List (Found K)} {k : K} :
+    m.any (fun x => decide (x.user = k)) = true ↔ ∃ s ∈ m, s.user = k := by
+  simp [List.any_eq_true]
+
+/-- status of the entry of a key in a map -/
+theorem hasK_uniq {m : List (Found K)} (h : Uniq m) {s : Found K} (hs : s ∈ m) :
+    hasK m s.user = true ↔ s.status = .has := by
+  rw [hasK_iff]
+  constructor
+  · rintro ⟨f, hf, hu, hst⟩; rw [← h.eq hf hs hu]; exact hst
+  · intro hst; exact ⟨s, hs, rfl, hst⟩
+
+theorem noK_uniq {m : List (Found K)} (h : Uniq m) {s : Found K} (hs : s ∈ m) :
+    noK m s.user = true ↔ s.status = .no := by
+  rw [noK_iff]
+  constructor
+  · rintro ⟨f, hf, hu, hst⟩; rw [← h.eq hf hs hu]; exact hst
+  · intro hst; exact ⟨s, hs, rfl, hst⟩
+
+theorem hasK_absent {m : List (Found K)} {k : K} (h : ∀ s ∈ m, s.user ≠ k) : hasK m k = false :=
+  bool_false_of_not (fun hh => by obtain ⟨f, hf, hu, _⟩ := hasK_iff.mp hh; exact h f hf hu)
+
+theorem noK_absent {m : List (Found K)} {k : K} (h : ∀ s ∈ m, s.user ≠ k) : noK m k = false :=
+  bool_false_of_not (fun hh => by obtain ⟨f, hf, hu, _⟩ := noK_iff.mp hh; exact h f hf hu)
+
+/-- zero value of `subtractedUser` when the key is absent -/
+def subStatus (sm : List (Found K)) (k : K) : Status :=
+  match sm.find? (fun s => decide (s.user = k)) with
+  | some s => s.status
+  | none => .has
+
+/-- the base does not hold the wildcard: second and third case of the table -/
+theorem exclStep_noBW {wk : K} {isWild : K → Bool} {bm sm : List (Found K)}
+    (hb : ∀ f ∈ bm, f.user ≠ wk) (fu : Found K) :
+    exclStep wk isWild bm sm fu =
+      if (sm.any (fun f => decide (f.user = wk)) || (sm.find? (fun s => decide (s.user = fu.user))).isSome) = true then
+        [{ user := fu.user, status := (subStatus sm fu.user).flip }]
+      else [{ user := fu.user, status := fu.status }] := by
+  have h1 : bm.any (fun f => decide (f.user = wk)) = false := by
+    rw [List.any_eq_false]; intro f hf; simpa using hb f hf
+  unfold exclStep subStatus
+  simp only [h1, Bool.false_eq_true, if_false]
+  split
+  · cases hfind : sm.find? (fun s => decide (s.user = fu.user)) with
+    | none => simp [Status.flip]
+    | some s => cases hst : s.status <;> simp [hst, Status.flip]
+  · rfl
+
+/-- the base holds the wildcard: first case of the table, entry by entry -/
+theorem mem_exclR_BW {wk : K} {isWild : K → Bool} {bm sm : List (Found K)}
+    (hbw : ∃ f ∈ bm, f.user = wk) {g : Found K} :
+    g ∈ exclR wk isWild bm sm ↔
+      (∃ fu ∈ bm, (∀ s ∈ sm, s.user ≠ fu.user) ∧ (∀ s ∈ sm, s.user ≠ wk) ∧ g = { user := fu.user }) ∨
+      (∃ fu ∈ bm, ∃ sfu ∈ sm, isWild sfu.user = true ∧ (∀ s ∈ sm, s.user ≠ fu.user) ∧
+          g = { user := fu.user, status := .no }) ∨
+      (∃ sfu ∈ sm, isWild sfu.user = false ∧ sfu.status = .no ∧ g = { user := sfu.user, status := .has }) ∨
+      (∃ sfu ∈ sm, isWild sfu.user = false ∧ sfu.status = .has ∧
+          g = { user := sfu.user, status := .no, excluded := [sfu.user] }) := by
+  have h1 : bm.any (fun f => decide (f.user = wk)) = true := any_user_iff.mpr hbw
+  have hstep : ∀ fu, g ∈ exclStep wk isWild bm sm fu ↔
+      ((∀ s ∈ sm, s.user ≠ fu.user) ∧ (∀ s ∈ sm, s.user ≠ wk) ∧ g = { user := fu.user }) ∨
+      (∃ sfu ∈ sm, isWild sfu.user = true ∧ (∀ s ∈ sm, s.user ≠ fu.user) ∧ g = { user := fu.user, status := .no }) ∨
+      (∃ sfu ∈ sm, isWild sfu.user = false ∧ sfu.status = .no ∧ g = { user := sfu.user, status := .has }) ∨
+      (∃ sfu ∈ sm, isWild sfu.user = false ∧ sfu.status = .has ∧
+          g = { user := sfu.user, status := .no, excluded := [sfu.user] }) := by
+    intro fu
+    unfold exclStep
+    simp only [h1, if_true, List.mem_append, List.mem_flatMap]
+    have hsub : (sm.find? (fun s => decide (s.user = fu.user))).isSome = false ↔ ∀ s ∈ sm, s.user ≠ fu.user := by
+      rw [← find_none_iff]
+      cases sm.find? (fun s => decide (s.user = fu.user)) <;> simp
+    have hsw : sm.any (fun f => decide (f.user = wk)) = false ↔ ∀ s ∈ sm, s.user ≠ wk := by
+      rw [List.any_eq_false]
+      constructor
+      · intro h s hs; simpa using h s hs
+      · intro h s hs; simpa using h s hs
+    constructor
+    · rintro (h | ⟨sfu, hsfu, h⟩)
+      · split at h
+        · rename_i hc
+          simp only [Bool.and_eq_true, Bool.not_eq_true'] at hc
+          simp only [List.mem_singleton] at h
+          exact .inl ⟨hsub.mp hc.1, hsw.mp hc.2, h⟩
+        · cases h
+      · by_cases hw : isWild sfu.user = true
+        · rw [if_pos hw] at h
+          split at h
+          · rename_i hc
+            simp only [Bool.not_eq_true'] at hc
+            simp only [List.mem_singleton] at h
+            exact .inr (.inl ⟨sfu, hsfu, hw, hsub.mp hc, h⟩)
+          · cases h
+        · rw [if_neg hw] at h
+          have hw' : isWild sfu.user = false := bool_false_of_not hw
+          rcases List.mem_append.mp h with h | h
+          · split at h
+            · rename_i hst; simp only [List.mem_singleton] at h
+              exact .inr (.inr (.inl ⟨sfu, hsfu, hw', hst, h⟩))
+            · cases h
+          · split at h
+            · rename_i hst; simp only [List.mem_singleton] at h
+              exact .inr (.inr (.inr ⟨sfu, hsfu, hw', hst, h⟩))
+            · cases h
+    · rintro (⟨h1', h2', rfl⟩ | ⟨sfu, hsfu, hw, h1', rfl⟩ | ⟨sfu, hsfu, hw, hst, rfl⟩ | ⟨sfu, hsfu, hw, hst, rfl⟩)
+      · left
+        have : (!(sm.find? (fun s => decide (s.user = fu.user))).isSome && !sm.any (fun f => decide (f.user = wk))) = true := by
+          simp only [Bool.and_eq_true, Bool.not_eq_true']
+          exact ⟨hsub.mpr h1', hsw.mpr h2'⟩
+        rw [if_pos this]; simp
+      · right
+        refine ⟨sfu, hsfu, ?_⟩
+        rw [if_pos hw]
+        have : (!(sm.find? (fun s => decide (s.user = fu.user))).isSome) = true := by
+          simp only [Bool.not_eq_true']; exact hsub.mpr h1'
+        rw [if_pos this]; simp
+      · right
+        refine ⟨sfu, hsfu, ?_⟩
+        rw [if_neg (by rw [hw]; simp)]
+        simp [hst]
+      · right
+        refine ⟨sfu, hsfu, ?_⟩
+        rw [if_neg (by rw [hw]; simp)]
+        simp [hst]
+  unfold exclR
+  rw [List.mem_flatMap]
+  constructor
+  · rintro ⟨fu, hfu, hg⟩
+    rcases (hstep fu).mp hg with h | h | h | h
+    · exact .inl ⟨fu, hfu, h⟩
+    · exact .inr (.inl ⟨fu, hfu, h⟩)
+    · exact .inr (.inr (.inl h))
+    · exact .inr (.inr (.inr h))
+  · obtain ⟨f0, hf0, _⟩ := hbw
+    rintro (⟨fu, hfu, h⟩ | ⟨fu, hfu, h⟩ | h | h)
+    · exact ⟨fu, hfu, (hstep fu).mpr (.inl h)⟩
+    · exact ⟨fu, hfu, (hstep fu).mpr (.inr (.inl h))⟩
+    · exact ⟨f0, hf0, (hstep f0).mpr (.inr (.inr (.inl h)))⟩
+    · exact ⟨f0, hf0, (hstep f0).mpr (.inr (.inr (.inr h)))⟩
+
+/-- invariants of the two assignment maps of `expandExclusion` -/
+structure MapInv (wk : K) (isWild : K → Bool) (m : List (Found K)) : Prop where
+  uniq : Uniq m
+  wild : ∀ f ∈ m, isWild f.user = true → f.user = wk
+  wkHas : ∀ f ∈ m, f.user = wk → f.status = .has
+
+theorem MapInv.hasWk {wk : K} {isWild : K → Bool} {m : List (Found K)} (h : MapInv wk isWild m) :
+    hasK m wk = true ↔ ∃ s ∈ m, s.user = wk := by
+  rw [hasK_iff]
+  constructor
+  · rintro ⟨f, hf, hu, _⟩; exact ⟨f, hf, hu⟩
+  · rintro ⟨f, hf, hu⟩; exact ⟨f, hf, hu, h.wkHas f hf hu⟩
+
+/-- the four notes of `expandExclusion`, unpacked -/
+structure ExclClean (wk : K) (bm sm : List (Found K)) : Prop where
+  flip : (∀ f ∈ bm, f.user ≠ wk) → ∀ fu ∈ bm, fu.status = .no → noK sm fu.user = false
+  wildHas : (∃ f ∈ bm, f.user = wk) → (∀ s ∈ sm, s.user ≠ wk) → ∀ fu ∈ bm, fu.status = .no → hasK sm fu.user = true
+  wildFlip : (∃ f ∈ bm, f.user = wk) → ∀ fu ∈ bm, fu.status = .no → noK sm fu.user = false
+  exclB : ∀ k, exclK bm k = true → noK bm k = true
+  exclS : ∀ k, exclK sm k = true → noK sm k = true
+
+theorem exclClean_of_notes {wk : K} {bm sm : List (Found K)} (hn : exclNotes wk bm sm = [])
+    (hexB : ∀ k, exclK bm k = true → noK bm k = true) (hexS : ∀ k, exclK sm k = true → noK sm k = true) :
+    ExclClean wk bm sm := by
+  unfold exclNotes at hn
+  obtain ⟨h12, h3⟩ := List.append_eq_nil_iff.mp hn
+  obtain ⟨h1, h2⟩ := List.append_eq_nil_iff.mp h12
+  have n1 := noteIf_nil h1
+  have n2 := noteIf_nil h2
+  have n3 := noteIf_nil h3
+  have anyF : ∀ (m : List (Found K)), (∀ f ∈ m, f.user ≠ wk) → m.any (fun f => decide (f.user = wk)) = false := by
+    intro m h; rw [List.any_eq_false]; intro f hf; simpa using h f hf
+  refine ⟨?_, ?_, ?_, hexB, hexS⟩
+  · intro hb fu hfu hst
+    rw [anyF bm hb] at n1
+    simp only [Bool.not_false, Bool.true_and] at n1
+    have := List.any_eq_false.mp n1 fu hfu
+    simp only [hst, decide_true, Bool.true_and] at this
+    exact bool_false_of_not this
+  · intro hb hs fu hfu hst
+    rw [any_user_iff.mpr hb, anyF sm hs] at n2
+    simp only [Bool.not_false, Bool.true_and] at n2
+    have := List.any_eq_false.mp n2 fu hfu
+    simp only [hst, decide_true, Bool.true_and, Bool.not_eq_true'] at this
+    cases h : hasK sm fu.user with
+    | true => rfl
+    | false => exact absurd h this
+  · intro hb fu hfu hst
+    rw [any_user_iff.mpr hb] at n3
+    simp only [Bool.true_and] at n3
+    have := List.any_eq_false.mp n3 fu hfu
+    simp only [hst, decide_true, Bool.true_and] at this
+    exact bool_false_of_not this
+
+theorem unread_nil {l : List (Found K)} (hn : unreadNote l = []) : ∀ k, exclK l k = true → noK l k = true := by
+  intro k hk
+  obtain ⟨f, hf, hkf⟩ := exclK_iff.mp hk
+  have := List.any_eq_false.mp (noteIf_nil hn) f hf
+  have h2 : ∀ x ∈ f.excluded, noK l x = true := by simpa using this
+  exact h2 k hkf
+
+/-- meaning of a map whose `excludedUsers` are all backed by `NoRelationship` entries -/
+theorem covers_map {wk : K} {m : List (Found K)} (hex : ∀ k, exclK m k = true → noK m k = true) {k : K} :
+    covers wk m k = true ↔ (hasK m k = true ∨ (hasK m wk = true ∧ noK m k = false)) := by
+  rw [covers_iff]
+  constructor
+  · rintro (h | ⟨h1, h2, _⟩)
+    · exact .inl h
+    · exact .inr ⟨h1, h2⟩
+  · rintro (h | ⟨h1, h2⟩)
+    · exact .inl h
+    · refine .inr ⟨h1, h2, bool_false_of_not (fun he => ?_)⟩
+      rw [hex k he] at h2; cases h2
+
+/-- **`expandExclusion`**: when none of its notes fires, the entries it writes mean "covered by the base
+and not covered by the subtracted operand" — all three cases of the table, wildcards on either side,
+`NoRelationship` entries on either side. -/
+theorem covers_exclR {wk : K} {isWild : K → Bool} {bm sm : List (Found K)} (hw : isWild wk = true)
+    (ib : MapInv wk isWild bm) (is : MapInv wk isWild sm) (hc : ExclClean wk bm sm) {k : K} :
+    covers wk (exclR wk isWild bm sm) k = true ↔ (covers wk bm k = true ∧ covers wk sm k = false) := by
+  rw [covers_map hc.exclB]
+  have cs : covers wk sm k = false ↔ ¬ (hasK sm k = true ∨ (hasK sm wk = true ∧ noK sm k = false)) := by
+    rw [← covers_map hc.exclS]; cases covers wk sm k <;> simp
+  rw [cs]
+  by_cases hbw : ∃ f ∈ bm, f.user = wk
+  · -- the base holds the wildcard
+    have hBW : hasK bm wk = true := ib.hasWk.mpr hbw
+    have mem := @mem_exclR_BW K _ wk isWild bm sm hbw
+    -- is the wildcard in the result?
+    have outWk : hasK (exclR wk isWild bm sm) wk = true ↔ ∀ s ∈ sm, s.user ≠ wk := by
+      rw [hasK_iff]
+      constructor
+      · rintro ⟨g, hg, hgu, hgs⟩
+        rcases mem.mp hg with ⟨fu, _, _, h2, rfl⟩ | ⟨fu, _, _, _, _, _, rfl⟩ | ⟨sfu, _, hwild, _, rfl⟩ | ⟨sfu, _, _, _, rfl⟩
+        · exact h2
+        · cases hgs
+        · simp only at hgu; rw [hgu, hw] at hwild; cases hwild
+        · cases hgs
+      · intro hs
+        obtain ⟨f, hf, hfu⟩ := hbw
+        exact ⟨{ user := f.user }, mem.mpr (.inl ⟨f, hf, fun s hs' => by rw [hfu]; exact hs s hs', hs, rfl⟩), hfu, rfl⟩
+    by_cases hks : ∃ s ∈ sm, s.user = k
+    · obtain ⟨s, hs, hsk⟩ := hks
+      by_cases hkw : k = wk
+      · -- the wildcard itself, subtracted
+        subst hkw
+        have hSW : hasK sm k = true := is.hasWk.mpr ⟨s, hs, hsk⟩
+        constructor
+        · intro hcov
+          exfalso
+          rcases covers_imp hcov with h | h <;> exact (outWk.mp h) s hs hsk
+        · rintro ⟨_, hns⟩; exact absurd (.inl hSW) hns
+      · have hnw : isWild k = false := bool_false_of_not (fun h => hkw (hsk ▸ is.wild s hs (hsk ▸ h)))
+        cases hst : s.status with
+        | no =>
+          have hno : noK sm k = true := hsk ▸ (noK_uniq is.uniq hs).mpr hst
+          have hnh : hasK sm k = false := bool_false_of_not (fun h => by
+            have := (hasK_uniq is.uniq hs).mp (hsk ▸ h); rw [hst] at this; cases this)
+          have hout : hasK (exclR wk isWild bm sm) k = true :=
+            hasK_iff.mpr ⟨{ user := s.user, status := .has },
+              mem.mpr (.inr (.inr (.inl ⟨s, hs, hsk ▸ hnw, hst, rfl⟩))), hsk, rfl⟩
+          constructor
+          · intro _
+            refine ⟨?_, fun h => ?_⟩
+            · right
+              refine ⟨hBW, bool_false_of_not (fun hnb => ?_)⟩
+              obtain ⟨fu, hfu, hfuk, hfus⟩ := noK_iff.mp hnb
+              have := hc.wildFlip hbw fu hfu hfus
+              rw [hfuk, hno] at this; cases this
+            · rcases h with h | ⟨_, h⟩
+              · rw [hnh] at h; cases h
+              · rw [hno] at h; cases h
+          · intro _; exact covers_iff.mpr (.inl hout)
+        | has =>
+          have hh : hasK sm k = true := hsk ▸ (hasK_uniq is.uniq hs).mpr hst
+          constructor
+          · intro hcov
+            exfalso
+            rcases covers_iff.mp hcov with h | ⟨_, h2, _⟩
+            · obtain ⟨g, hg, hgu, hgs⟩ := hasK_iff.mp h
+              rcases mem.mp hg with ⟨fu, _, h1, _, rfl⟩ | ⟨fu, _, _, _, _, _, rfl⟩ | ⟨sfu, hsfu, _, hno, rfl⟩ | ⟨sfu, _, _, _, rfl⟩
+              · exact h1 s hs (hsk.trans hgu.symm)
+              · cases hgs
+              · simp only at hgu
+                have := is.uniq.eq hsfu hs (hgu.trans hsk.symm)
+                rw [this, hst] at hno; cases hno
+              · cases hgs
+            · have : noK (exclR wk isWild bm sm) k = true :=
+                noK_iff.mpr ⟨{ user := s.user, status := .no, excluded := [s.user] },
+                  mem.mpr (.inr (.inr (.inr ⟨s, hs, hsk ▸ hnw, hst, rfl⟩))), hsk, rfl⟩
+              rw [this] at h2; cases h2
+          · rintro ⟨_, hns⟩; exact absurd (.inl hh) hns
+    · -- `k` is not a key of the subtract map
+      have hks' : ∀ s ∈ sm, s.user ≠ k := fun s hs h => hks ⟨s, hs, h⟩
+      have hnh : hasK sm k = false := hasK_absent hks'
+      have hnn : noK sm k = false := noK_absent hks'
+      by_cases hsw : ∃ s ∈ sm, s.user = wk
+      · have hSW : hasK sm wk = true := is.hasWk.mpr hsw
+        constructor
+        · intro hcov
+          exfalso
+          obtain ⟨s0, hs0, hs0u⟩ := hsw
+          rcases covers_iff.mp hcov with h | ⟨h, _, _⟩
+          · obtain ⟨g, hg, hgu, hgs⟩ := hasK_iff.mp h
+            rcases mem.mp hg with ⟨fu, _, _, h2, rfl⟩ | ⟨fu, _, _, _, _, _, rfl⟩ | ⟨sfu, hsfu, _, _, rfl⟩ | ⟨sfu, _, _, _, rfl⟩
+            · exact h2 s0 hs0 hs0u
+            · cases hgs
+            · exact hks' sfu hsfu hgu
+            · cases hgs
+          · exact (outWk.mp h) s0 hs0 hs0u
+        · rintro ⟨_, hns⟩; exact absurd (.inr ⟨hSW, hnn⟩) hns
+      · have hsw' : ∀ s ∈ sm, s.user ≠ wk := fun s hs h => hsw ⟨s, hs, h⟩
+        have hnSW : hasK sm wk = false := hasK_absent hsw'
+        have houtWk := outWk.mpr hsw'
+        have hnoOut : noK (exclR wk isWild bm sm) k = false := by
+          apply bool_false_of_not
+          intro h
+          obtain ⟨g, hg, hgu, hgs⟩ := noK_iff.mp h
+          rcases mem.mp hg with ⟨fu, _, _, _, rfl⟩ | ⟨fu, _, sfu, hsfu, hwild, _, rfl⟩ | ⟨sfu, _, _, _, rfl⟩ | ⟨sfu, hsfu, _, _, rfl⟩
+          · cases hgs
+          · exact hsw' sfu hsfu (is.wild sfu hsfu hwild)
+          · cases hgs
+          · exact hks' sfu hsfu hgu
+        have hexOut : exclK (exclR wk isWild bm sm) k = false := by
+          apply bool_false_of_not
+          intro h
+          obtain ⟨g, hg, hkg⟩ := exclK_iff.mp h
+          rcases mem.mp hg with ⟨fu, _, _, _, rfl⟩ | ⟨fu, _, sfu, _, _, _, rfl⟩ | ⟨sfu, _, _, _, rfl⟩ | ⟨sfu, hsfu, _, _, rfl⟩
+          · cases hkg
+          · cases hkg
+          · cases hkg
+          · simp only [List.mem_singleton] at hkg; exact hks' sfu hsfu hkg.symm
+        constructor
+        · intro _
+          refine ⟨?_, fun h => ?_⟩
+          · right
+            refine ⟨hBW, bool_false_of_not (fun hnb => ?_)⟩
+            obtain ⟨fu, hfu, hfuk, hfus⟩ := noK_iff.mp hnb
+            have := hc.wildHas hbw hsw' fu hfu hfus
+            rw [hfuk, hnh] at this; cases this
+          · rcases h with h | ⟨h, _⟩
+            · rw [hnh] at h; cases h
+            · rw [hnSW] at h; cases h
+        · intro _; exact covers_iff.mpr (.inr ⟨houtWk, hnoOut, hexOut⟩)
+  · -- the base does not hold the wildcard
+    have hb : ∀ f ∈ bm, f.user ≠ wk := fun f hf h => hbw ⟨f, hf, h⟩
+    have hnBW : hasK bm wk = false := hasK_absent hb
+    have step := @exclStep_noBW K _ wk isWild bm sm hb
+    have outKeys : ∀ g ∈ exclR wk isWild bm sm, ∃ fu ∈ bm, g.user = fu.user := by
+      intro g hg
+      unfold exclR at hg
+      obtain ⟨fu, hfu, hmem⟩ := List.mem_flatMap.mp hg
+      rw [step] at hmem
+      split at hmem <;> (simp only [List.mem_singleton] at hmem; subst hmem; exact ⟨fu, hfu, rfl⟩)
+    have outNoWk : hasK (exclR wk isWild bm sm) wk = false := by
+      apply bool_false_of_not
+      intro h
+      obtain ⟨g, hg, hgu, _⟩ := hasK_iff.mp h
+      obtain ⟨fu, hfu, hgf⟩ := outKeys g hg
+      exact hb fu hfu (hgf ▸ hgu)
+    have covOut : covers wk (exclR wk isWild bm sm) k = true ↔ hasK (exclR wk isWild bm sm) k = true := by
+      rw [covers_iff, outNoWk]; simp
+    rw [covOut, hnBW]
+    simp only [Bool.false_eq_true, false_and, or_false]
+    -- entries for `k`
+    have outK : hasK (exclR wk isWild bm sm) k = true ↔ ∃ fu ∈ bm, fu.user = k ∧
+        (if (sm.any (fun f => decide (f.user = wk)) || (sm.find? (fun s => decide (s.user = k))).isSome) = true then
+          (subStatus sm k).flip = .has else fu.status = .has) := by
+      rw [hasK_iff]
+      unfold exclR
+      constructor
+      · rintro ⟨g, hg, hgu, hgs⟩
+        obtain ⟨fu, hfu, hmem⟩ := List.mem_flatMap.mp hg
+        rw [step] at hmem
+        split at hmem
+        · rename_i hcnd
+          simp only [List.mem_singleton] at hmem; subst hmem
+          simp only at hgu hgs; subst hgu
+          exact ⟨fu, hfu, rfl, by rw [if_pos hcnd]; exact hgs⟩
+        · rename_i hcnd
+          simp only [List.mem_singleton] at hmem; subst hmem
+          simp only at hgu hgs; subst hgu
+          exact ⟨fu, hfu, rfl, by rw [if_neg hcnd]; exact hgs⟩
+      · rintro ⟨fu, hfu, hfuk, hcase⟩
+        subst hfuk
+        by_cases hcnd : (sm.any (fun f => decide (f.user = wk)) || (sm.find? (fun s => decide (s.user = fu.user))).isSome) = true
+        · rw [if_pos hcnd] at hcase
+          refine ⟨{ user := fu.user, status := (subStatus sm fu.user).flip }, List.mem_flatMap.mpr ⟨fu, hfu, ?_⟩, rfl, hcase⟩
+          rw [step, if_pos hcnd]; exact List.mem_singleton.mpr rfl
+        · rw [if_neg hcnd] at hcase
+          refine ⟨{ user := fu.user, status := fu.status }, List.mem_flatMap.mpr ⟨fu, hfu, ?_⟩, rfl, hcase⟩
+          rw [step, if_neg hcnd]; exact List.mem_singleton.mpr rfl
+    rw [outK]
+    by_cases hks : ∃ s ∈ sm, s.user = k
+    · obtain ⟨s, hs, hsk⟩ := hks
+      have hfind : sm.find? (fun x => decide (x.user = k)) = some s := (find_some_iff is.uniq).mpr ⟨hs, hsk⟩
+      have hsub : subStatus sm k = s.status := by unfold subStatus; rw [hfind]
+      simp only [hfind, Option.isSome_some, Bool.or_true, if_true, hsub]
+      cases hst : s.status with
+      | no =>
+        have hno : noK sm k = true := hsk ▸ (noK_uniq is.uniq hs).mpr hst
+        have hnh : hasK sm k = false := bool_false_of_not (fun h => by
+          have := (hasK_uniq is.uniq hs).mp (hsk ▸ h); rw [hst] at this; cases this)
+        constructor
+        · rintro ⟨fu, hfu, hfuk, _⟩
+          refine ⟨?_, fun h => ?_⟩
+          · cases hfs : fu.status with
+            | has => exact hasK_iff.mpr ⟨fu, hfu, hfuk, hfs⟩
+            | no =>
+              have := hc.flip hb fu hfu hfs
+              rw [hfuk, hno] at this; cases this
+          · rcases h with h | ⟨_, h⟩
+            · rw [hnh] at h; cases h
+            · rw [hno] at h; cases h
+        · rintro ⟨hbk, _⟩
+          obtain ⟨fu, hfu, hfuk, _⟩ := hasK_iff.mp hbk
+          exact ⟨fu, hfu, hfuk, rfl⟩
+      | has =>
+        have hh : hasK sm k = true := hsk ▸ (hasK_uniq is.uniq hs).mpr hst
+        constructor
+        · rintro ⟨_, _, _, h⟩; simp [Status.flip] at h
+        · rintro ⟨_, hns⟩; exact absurd (.inl hh) hns
+    · have hks' : ∀ s ∈ sm, s.user ≠ k := fun s hs h => hks ⟨s, hs, h⟩
+      have hfind : sm.find? (fun x => decide (x.user = k)) = none := find_none_iff.mpr hks'
+      have hsub : subStatus sm k = .has := by unfold subStatus; rw [hfind]
+      have hnh : hasK sm k = false := hasK_absent hks'
+      have hnn : noK sm k = false := noK_absent hks'
+      simp only [hfind, Option.isSome_none, Bool.or_false, hsub]
+      by_cases hsw : ∃ s ∈ sm, s.user = wk
+      · have hSW : hasK sm wk = true := is.hasWk.mpr hsw
+        have hany : sm.any (fun f => decide (f.user = wk)) = true := any_user_iff.mpr hsw
+        simp only [hany, if_true]
+        constructor
+        · rintro ⟨_, _, _, h⟩; simp [Status.flip] at h
+        · rintro ⟨_, hns⟩; exact absurd (.inr ⟨hSW, hnn⟩) hns
+      · have hsw' : ∀ s ∈ sm, s.user ≠ wk := fun s hs h => hsw ⟨s, hs, h⟩
+        have hnSW : hasK sm wk = false := hasK_absent hsw'
+        have hany : sm.any (fun f => decide (f.user = wk)) = false := by
+          rw [List.any_eq_false]; intro f hf; simpa using hsw' f hf
+        simp only [hany, Bool.false_eq_true, if_false]
+        constructor
+        · rintro ⟨fu, hfu, hfuk, hfs⟩
+          refine ⟨hasK_iff.mpr ⟨fu, hfu, hfuk, hfs⟩, fun h => ?_⟩
+          rcases h with h | ⟨h, _⟩
+          · rw [hnh] at h; cases h
+          · rw [hnSW] at h; cases h
+        · rintro ⟨hbk, _⟩
+          obtain ⟨fu, hfu, hfuk, hfs⟩ := hasK_iff.mp hbk
+          exact ⟨fu, hfu, hfuk, hfs⟩
+
 end
 end OpenFGAVerif.ListUsers
